@@ -414,6 +414,9 @@ class Certificate:
         """
         if issuer.certificate_has_all_permissions():
             return True
+        if self.certificate_has_all_permissions():
+            # A subject that claims to issue "all" is only covered by an issuer that may issue all.
+            return False
         return Certificate.check_all_requested_permissions_are_allowed(
             self.get_list_of_needed_permissions(),
             issuer.get_list_of_allowed_persmissions(),
